@@ -77,7 +77,7 @@ def guarded(fn):
 class P(Prop):
     id = "C06"
     quick_cases = 3000
-    thorough_cases = 150000
+    thorough_cases = 500000
     chunk = 500
     rule = (
         "0-5 groups of 1-4 identifiers (prefix per group: none / REV__ / rev_ / CON__ / OBSOLETE__ / OBSOLETE__REV__ / "
@@ -254,8 +254,9 @@ class P(Prop):
                 return False
         return True
 
-    def _expect(self, case):
-        """rows the property text demands (None where it does not decide), in report order"""
+    def _expect(self, case, per_listing=False):
+        """rows the property text demands (None where it does not decide), in report order.
+        per_listing=True: the counts of the pinned defect instead (one per LISTING of a protein)"""
         cutoff = None if case["cutoff"] == "inf" else unrat(case["cutoff"])
         keep = case["keepAll"]
         n = min(len(case["groups"]), len(case["infos"]), len(case["scores"]), len(case["qvals"]))
@@ -268,6 +269,11 @@ class P(Prop):
                 return "skip"
             within = [e for e in ev if cutoff is None or unrat(e[0]) <= cutoff]
             cnt = [len({e[1] for e in within if p in e[2]}) for p in g]  # distinct peptides, once per peptide
+            if per_listing:
+                first = {}
+                for e in within:
+                    first.setdefault(e[1], e)
+                cnt = [sum(e[2].count(p) for e in first.values()) for p in g]
             listed = [(p, c) for p, c in zip(g, cnt) if c > 0 or keep]
             if not listed:
                 continue
@@ -288,10 +294,20 @@ class P(Prop):
             })
         return {"rows": want}
 
-    def oracle(self, case, impl_out):
+    def repeated_listing_counted_per_listing(self, case, impl_out, rec=None):
+        """signature of the defect fixed by fixes/C06-count-once-per-listed-protein.diff (for a
+        known_findings.json entry, should the repair not be committed): some peptide lists a protein
+        repeatedly, the property fails, and the rows are exactly what counting per listing gives"""
+        if not any(len(set(e[2])) < len(e[2]) for ev in case["infos"] for e in ev):
+            return False
+        if any(len({e[1] for e in ev}) < len(ev) for ev in case["infos"]):
+            return False
+        return self.oracle(case, impl_out) is not None and self.oracle(case, impl_out, per_listing=True) is None
+
+    def oracle(self, case, impl_out, per_listing=False):
         if not isinstance(impl_out, dict) or ("rows" not in impl_out and "err" not in impl_out):
             return "no output: %r" % (impl_out,)
-        want = self._expect(case)
+        want = self._expect(case, per_listing)
         if want == "skip":
             return None
         if "err" in want:
